@@ -209,6 +209,9 @@ PROPS["C09"]["verus"]["readers"] = READER_FNS
 PROPS["C11"]["verus"]["streams"] = ["Streams::next"]
 PROPS["C11"]["verus"]["pkgstreams"] = ["Package::has_stream", "Package::read_stream", "Package::write_stream", "Package::remove_stream",
                                        "Package::remove_digital_signature", "Package::comp", "Package::comp_mut", "StreamWriter::new", "StreamReader::new"]
+FAULT_PROBES = {fn: ["faults"] for fn in ["Table::write_rows", "StringPool::write_pool", "StringPool::write_data", "PropertySet::write",
+                                            "SummaryInfo::write", "FinishImpl::finish", "Package::flush"]}
+PROPS["C15"]["probes"] = FAULT_PROBES
 PROPS["C14"]["probes"] = {"CodePage::encode": ["encode"]}
 PROPS["C18"]["probes"] = {"timestamp_from_system_time": ["time"], "system_time_from_timestamp": ["time"],
                           "duration_to_timestamp_delta": ["time"], "timestamp_delta_to_duration": ["time"]}
